@@ -376,7 +376,7 @@ CHECKS = {
         }],
         "assumptions": [
             "raw direct-channel stream = ANY byte string of length 0..B (every byte symbolic): every varint incl. 10-byte overflowing ones and every declared length; real bufio.Reader, binary.ReadUvarint, io.ReadFull are interpreted",
-            "declared lengths above 16 are explored up to the size check and the allocation only (recorded cut)",
+            "declared lengths above 16 are explored up to the size check and the allocation only (recorded cut); every allocation sized by the declared length is an assertion `size <= DelimitedReadMaxSize` decided by the solver over all prefixes (vstub.AllocLimit), replayed natively by measuring the bytes allocated",
             "head-exchange message: json.Unmarshal over-approximated by ANY value of the message type: 1..H heads, each null or an entry with identity (absent / without signatures / complete, naming a writer), clock (absent / any 64-bit time), hash, next, key+sig independently absent or present; delivered on the store's topic of a replica built by the real InitBaseStore; afterwards a valid head (real ipfs-log Append by a second device of the writer) must still replicate through the real replicator, fetcher, Join",
             "stub IO mirrors the nil-dereferences of the real CBOR IO (ToJsonableLamportClock / ToJsonableIdentitySignature), confirmed natively against the real IO",
             "pacing: the valid message arrives after the malformed one was handled, or in the same burst right behind / right before it (both waiting in the channel buffer)",
